@@ -52,6 +52,25 @@ def run(ctx):
         if not (e_o and dominated_by_edges(b, bi, e_o)):
             outer = False
     ctx.ob('R10.8', 'JobClose only for an open job', inner or outer, 'the JobClose event is emitted under is_open()==true (inside Job::close or at every call site)', jc.loc(evc[0]) if evc else jc.loc())
+    ctx.rule('R10.9', 'every event whose replay changes the restored state is persisted (ForwardMode::StreamAndPersist), not only streamed to clients')
+    FM = HQ + 'event::streamer::ForwardMode'
+    rwr = replay_writes(prog)
+    modes = {}
+    for p_, b_ in prog.bodies.items():
+        if not p_.startswith(STREAMER + 'on_') or b_.kind != 'method':
+            continue
+        pv = set(s_['rv'][1][2] for o_, bb_, bi_, s_ in construct_sites(prog, EP) if bb_.path == p_)
+        fm = set(s_['rv'][1][2] for o_, bb_, bi_, s_ in construct_sites(prog, FM) if bb_.path == p_)
+        for v_ in pv:
+            modes.setdefault(v_, set()).update(fm)
+    npers = 0
+    for v_, fields_ in sorted(rwr.items()):
+        if not fields_ or v_ not in modes:
+            continue
+        npers += 1
+        ctx.ob('R10.9', f'{v_}|persisted', 'StreamAndPersist' in modes[v_],
+               f'{v_} is replayed into {sorted(fields_)} on restart, so its emitter must persist it (observed modes {sorted(modes[v_])})', None)
+    ctx.floor('R10.9', npers, 8, 'replayed event kinds with an emitter')
     lef = prog.body(LEF)
     # ---- R10.1
     ws = job_table.job_state_writes(prog)
@@ -221,6 +240,19 @@ def run(ctx):
         exp = [k for k, v in want.items() if v == field]
         ctx.ob('R10.6', f'restore_job|{field}', sign == '+' and vs is not None and set(vs) == set(exp) and amount and amount.startswith('1_'),
                f'{field} is incremented by 1 exactly for a restored {exp} task (observed arm {sorted(vs) if vs else vs})', rj.loc(bi, s))
+    # every task with a restorer record reaches the switch over its recorded state (nothing skips the terminal handling)
+    sw_blocks = [bi_ for bi_ in rj.reachable() if (rj.switch_info(bi_) or {}).get('kind') == 'discr' and rj.switch_info(bi_)['enum'] == JTS and rj.canon_key(rj.switch_info(bi_)['place']) == rkey]
+    gm = [bi_ for bi_ in rj.call_blocks(lambda c: c.endswith('HashMap::get_mut') or c.endswith('HashMap::get')) if 'tasks' in local_field_sources(rj, op_local(rj.term[bi_]['args'][0]), through_mutation=False)]
+    okall = False
+    if sw_blocks and gm:
+        OPT_ = 'core::option::Option'
+        for k_, d_ in scrutinees(rj, OPT_).items():
+            if d_['root'] == rj.term[gm[0]]['d'][0]:
+                ent_, reg_ = rj.arm_entries(OPT_, {'Some'}, k_)
+                hs_ = loop_headers_containing(rj, gm[0])
+                okall, _w = must_pass(rj, ent_, sw_blocks, exits=hs_[:1] + list(rj.returns()))
+    ctx.ob('R10.6', 'restore_job|every recorded task reaches the outcome switch', okall,
+           'for every task that has a restorer record the recorded state is inspected (no early `continue`, e.g. for tasks without an instance id, may skip restoring a terminal outcome and its counter)', rj.loc(sw_blocks[0]) if sw_blocks else rj.loc())
     sw = [(bi, s) for bi, s, pl, fs in rj.field_writes() if fs and fs[-1][0] == 'state' and fs[-1][1] == HQ + 'job::JobTaskInfo']
     ctx.require(sw, 'R10.6: job_task.state write missing')
     vs = variants_at(rj, JTS, sw[0][0], rkey)
